@@ -107,7 +107,7 @@ Proof.
         - assert (2 ^ 8 < 2 ^ 29) by (apply N.pow_lt_mono_r; lia). change (2 ^ 8) with 256 in H. lia.
         - change (2 ^ 32) with 4294967296. lia. }
       intros ? ? b2 _.
-      set (nc := n + 1).
+      set (nc := n + 1). unfold color_index_block.
       assert (E : (if nc <=? 2 then 8 else if nc <=? 4 then 4 else if nc <=? 16 then 2 else 1) =
                   2 ^ (if 16 <? nc then 0 else if 4 <? nc then 1 else if 2 <? nc then 2 else 3)).
       { destruct (N.leb_spec nc 2); destruct (N.ltb_spec 16 nc); destruct (N.ltb_spec 4 nc); destruct (N.ltb_spec 2 nc);
